@@ -719,7 +719,7 @@ func (engine) Generate(r *lib.Rng, tier string, i int) any {
 		end.Preds = pickSome(r, e, r.Range(1, 2))
 	}
 	c.Nodes = append(c.Nodes, end)
-	// one case in five carries one or two multi-branches (skip propagation in the all-predecessor
+	// one case in five (Workflows: one in three) carries one or two multi-branches (skip propagation in the all-predecessor
 	// modes): From in a layer, Ends = 2-3 nodes of the next layer, Sel = a subset, possibly empty.
 	// Half of the two-branch cases are "contested": both branches (different sources of one layer)
 	// have the same node among their ends and neither selects it, and the first source also has a
